@@ -15,6 +15,11 @@ def main():
     p = os.path.join(ROOT, "tools", "manifest_table.json")
     if os.path.exists(p):
         extra = json.load(open(p))
+    d = os.path.join(ROOT, "tools", "manifest.d")
+    if os.path.isdir(d):
+        for f in sorted(os.listdir(d)):
+            if f.endswith(".json"):
+                extra.update(json.load(open(os.path.join(d, f))))
     checks, na = [], []
     for pr in props:
         pid = pr["id"]
